@@ -1,0 +1,385 @@
+//!
+//! Verification shim (only compiled with `--cfg desync_verif`).
+//!
+//! Replaces the std synchronisation primitives used by the crate with thin wrappers that report every
+//! ordering-relevant operation to an optional, externally installed `Runtime`. With no runtime installed
+//! (or on a thread the runtime does not control) every wrapper behaves exactly like the std type, so the
+//! crate's own tests behave the same with the cfg switched on.
+//!
+//! A controlled thread *announces* the blocking or ordering-relevant operation it is about to perform
+//! (`Runtime::point`) and is suspended until the runtime decides it is that thread's turn; the runtime only
+//! picks threads whose announced operation can complete (mutex free, condvar notified, park token present,
+//! channel non-empty, thread finished). Between two announcements a thread runs alone.
+//!
+
+use std::panic::Location;
+use std::sync::atomic::{AtomicUsize, Ordering};
+use std::sync::OnceLock;
+
+/// The operation a controlled thread is about to perform
+#[derive(Clone, Copy, PartialEq, Eq, Debug)]
+pub enum Op {
+    /// Acquire a mutex (enabled while the mutex is not held by a controlled thread)
+    Lock(usize),
+    /// Return from `Condvar::wait` (enabled once notified); the mutex is re-acquired afterwards
+    CondWait(usize, usize),
+    /// Return from `thread::park` (enabled while the calling thread has a token)
+    Park,
+    /// Receive from a channel (enabled while the channel is non-empty or has no senders left)
+    Recv(usize),
+    /// Join a thread (enabled once it has finished)
+    Join(usize),
+    /// Plain scheduling point
+    Yield(&'static str),
+}
+
+/// What the harness implements
+pub trait Runtime: Send + Sync {
+    /// Is the calling thread under the runtime's control?
+    fn controlled(&self) -> bool;
+    /// Id of the calling (controlled) thread
+    fn current(&self) -> usize;
+    /// Announces `op` and returns once the runtime has chosen this thread to perform it
+    fn point(&self, op: Op, loc: &'static Location<'static>);
+    /// Asked before a nested lock/after a nested unlock whether this should be a scheduling point (`held` = classes of the mutexes still held)
+    fn nested_point(&self, held: &[&'static str]) -> bool;
+    /// Is a depth-0 acquisition of a mutex of this class a scheduling point?
+    fn lock_is_point(&self, class: &'static str) -> bool;
+
+    fn mutex_created(&self, id: usize, class: &'static str, loc: &'static Location<'static>);
+    fn mutex_acquired(&self, id: usize, class: &'static str, loc: &'static Location<'static>, try_lock: bool);
+    fn mutex_try_failed(&self, id: usize, class: &'static str, loc: &'static Location<'static>);
+    fn mutex_released(&self, id: usize);
+    /// The calling thread has released `mutex` and waits on `condvar` (followed by `point(CondWait)`)
+    fn cond_wait(&self, condvar: usize, mutex: usize);
+    fn cond_notify(&self, condvar: usize, all: bool);
+    fn unpark(&self, thread: usize);
+    fn chan_changed(&self, chan: usize, items: usize, senders: usize);
+    fn spawn(&self, name: Option<String>, f: Box<dyn FnOnce() + Send>) -> usize;
+    fn is_finished(&self, thread: usize) -> bool;
+}
+
+static RUNTIME: OnceLock<Box<dyn Runtime>> = OnceLock::new();
+static NEXT_ID: AtomicUsize = AtomicUsize::new(1);
+
+/// Installs the runtime (once per process)
+pub fn install(runtime: Box<dyn Runtime>) -> bool { RUNTIME.set(runtime).is_ok() }
+
+#[inline] fn any_rt() -> Option<&'static dyn Runtime> { RUNTIME.get().map(|b| &**b) }
+#[inline] fn rt() -> Option<&'static dyn Runtime> { any_rt().filter(|rt| rt.controlled()) }
+#[inline] fn next_id() -> usize { NEXT_ID.fetch_add(1, Ordering::Relaxed) }
+
+pub mod sync {
+    pub use std::sync::{Arc, Weak, LockResult, TryLockResult, TryLockError, PoisonError, atomic};
+    use std::ops::{Deref, DerefMut};
+    use std::cell::RefCell;
+    use std::panic::Location;
+    use super::{rt, any_rt, next_id, Op};
+
+    thread_local! { static HELD: RefCell<Vec<(usize, &'static str)>> = RefCell::new(vec![]); }
+
+    fn held_classes() -> Vec<&'static str> { HELD.with(|h| h.borrow().iter().map(|(_, c)| *c).collect()) }
+    fn depth() -> usize { HELD.with(|h| h.borrow().len()) }
+
+    pub struct Mutex<T> { id: usize, class: &'static str, inner: std::sync::Mutex<T> }
+    pub struct MutexGuard<'a, T> { mutex: &'a Mutex<T>, guard: Option<std::sync::MutexGuard<'a, T>> }
+
+    impl<T> Mutex<T> {
+        #[track_caller]
+        pub fn new(value: T) -> Mutex<T> {
+            let mutex = Mutex { id: next_id(), class: std::any::type_name::<T>(), inner: std::sync::Mutex::new(value) };
+            if let Some(rt) = any_rt() { rt.mutex_created(mutex.id, mutex.class, Location::caller()); }
+            mutex
+        }
+
+        /// Identifier of this mutex as reported to the runtime
+        pub fn verif_id(&self) -> usize { self.id }
+
+        /// Reads the protected value without any scheduling point (for state snapshots taken by the harness between steps)
+        pub fn verif_peek<R>(&self, read: impl FnOnce(&T) -> R) -> Option<R> {
+            match self.inner.try_lock() {
+                Ok(guard)                           => Some(read(&*guard)),
+                Err(TryLockError::Poisoned(err))    => Some(read(&*err.into_inner())),
+                Err(TryLockError::WouldBlock)       => None
+            }
+        }
+
+        fn wrap<'a>(&'a self, guard: std::sync::MutexGuard<'a, T>, loc: &'static Location<'static>, try_lock: bool) -> MutexGuard<'a, T> {
+            HELD.with(|h| h.borrow_mut().push((self.id, self.class)));
+            if let Some(rt) = rt() { rt.mutex_acquired(self.id, self.class, loc, try_lock); }
+            MutexGuard { mutex: self, guard: Some(guard) }
+        }
+
+        #[track_caller]
+        pub fn lock(&self) -> LockResult<MutexGuard<'_, T>> {
+            let loc = Location::caller();
+
+            if let Some(rt) = rt() {
+                if depth() == 0 {
+                    if rt.lock_is_point(self.class) { rt.point(Op::Lock(self.id), loc); }
+                } else if rt.nested_point(&held_classes()) {
+                    rt.point(Op::Lock(self.id), loc);
+                }
+
+                loop {
+                    match self.inner.try_lock() {
+                        Ok(guard)                           => return Ok(self.wrap(guard, loc, false)),
+                        Err(TryLockError::Poisoned(err))    => return Err(PoisonError::new(self.wrap(err.into_inner(), loc, false))),
+                        Err(TryLockError::WouldBlock)       => rt.point(Op::Lock(self.id), loc)
+                    }
+                }
+            }
+
+            match self.inner.lock() {
+                Ok(guard)   => Ok(self.wrap(guard, loc, false)),
+                Err(err)    => Err(PoisonError::new(self.wrap(err.into_inner(), loc, false)))
+            }
+        }
+
+        #[track_caller]
+        pub fn try_lock(&self) -> TryLockResult<MutexGuard<'_, T>> {
+            let loc = Location::caller();
+
+            match self.inner.try_lock() {
+                Ok(guard)                           => Ok(self.wrap(guard, loc, true)),
+                Err(TryLockError::Poisoned(err))    => Err(TryLockError::Poisoned(PoisonError::new(self.wrap(err.into_inner(), loc, true)))),
+                Err(TryLockError::WouldBlock)       => {
+                    if let Some(rt) = rt() { rt.mutex_try_failed(self.id, self.class, loc); }
+                    Err(TryLockError::WouldBlock)
+                }
+            }
+        }
+    }
+
+    impl<'a, T> Deref for MutexGuard<'a, T> { type Target = T; fn deref(&self) -> &T { self.guard.as_ref().unwrap() } }
+    impl<'a, T> DerefMut for MutexGuard<'a, T> { fn deref_mut(&mut self) -> &mut T { self.guard.as_mut().unwrap() } }
+
+    impl<'a, T> MutexGuard<'a, T> {
+        /// Releases the std guard and the bookkeeping (used by drop and by Condvar::wait)
+        fn release(&mut self) -> bool {
+            if let Some(guard) = self.guard.take() {
+                std::mem::drop(guard);
+                let id = self.mutex.id;
+                HELD.with(|h| { let mut h = h.borrow_mut(); if let Some(pos) = h.iter().rposition(|(held, _)| *held == id) { h.remove(pos); } });
+                if let Some(rt) = rt() { rt.mutex_released(id); }
+                true
+            } else {
+                false
+            }
+        }
+    }
+
+    impl<'a, T> Drop for MutexGuard<'a, T> {
+        fn drop(&mut self) {
+            if self.release() {
+                if let Some(rt) = rt() {
+                    if depth() > 0 && !std::thread::panicking() && rt.nested_point(&held_classes()) {
+                        rt.point(Op::Yield("unlock"), Location::caller());
+                    }
+                }
+            }
+        }
+    }
+
+    pub struct Condvar { id: usize, inner: std::sync::Condvar }
+
+    impl Condvar {
+        pub fn new() -> Condvar { Condvar { id: next_id(), inner: std::sync::Condvar::new() } }
+
+        pub fn notify_one(&self) { if let Some(rt) = rt() { rt.cond_notify(self.id, false); } self.inner.notify_one(); }
+        pub fn notify_all(&self) { if let Some(rt) = rt() { rt.cond_notify(self.id, true); } self.inner.notify_all(); }
+
+        #[track_caller]
+        pub fn wait<'a, T>(&self, mut guard: MutexGuard<'a, T>) -> LockResult<MutexGuard<'a, T>> {
+            let loc     = Location::caller();
+            let mutex   = guard.mutex;
+
+            if let Some(rt) = rt() {
+                // Release the mutex and start waiting in one step (no scheduling point in between), then re-acquire
+                guard.release();
+                rt.cond_wait(self.id, mutex.id);
+                rt.point(Op::CondWait(self.id, mutex.id), loc);
+
+                loop {
+                    match mutex.inner.try_lock() {
+                        Ok(guard)                           => return Ok(mutex.wrap(guard, loc, false)),
+                        Err(TryLockError::Poisoned(err))    => return Err(PoisonError::new(mutex.wrap(err.into_inner(), loc, false))),
+                        Err(TryLockError::WouldBlock)       => rt.point(Op::Lock(mutex.id), loc)
+                    }
+                }
+            }
+
+            let std_guard = guard.guard.take().unwrap();
+            HELD.with(|h| { let mut h = h.borrow_mut(); if let Some(pos) = h.iter().rposition(|(held, _)| *held == mutex.id) { h.remove(pos); } });
+
+            match self.inner.wait(std_guard) {
+                Ok(std_guard)   => Ok(mutex.wrap(std_guard, loc, false)),
+                Err(err)        => Err(PoisonError::new(mutex.wrap(err.into_inner(), loc, false)))
+            }
+        }
+    }
+}
+
+pub mod thread {
+    pub use std::thread::{panicking, sleep, yield_now, Result};
+    use super::{rt, any_rt, Op};
+    use std::io;
+    use std::panic::Location;
+    use std::sync::{Arc, Mutex};
+
+    #[derive(Clone)]
+    pub struct Thread { id: Option<usize>, inner: std::thread::Thread }
+
+    pub fn current() -> Thread { Thread { id: rt().map(|rt| rt.current()), inner: std::thread::current() } }
+
+    #[track_caller]
+    pub fn park() {
+        if let Some(rt) = rt() { rt.point(Op::Park, Location::caller()); } else { std::thread::park() }
+    }
+
+    impl Thread {
+        pub fn unpark(&self) {
+            match (any_rt(), self.id) {
+                (Some(rt), Some(id))    => rt.unpark(id),
+                _                       => self.inner.unpark()
+            }
+        }
+
+        /// The runtime's id for this thread, if it is a controlled thread
+        pub fn verif_id(&self) -> Option<usize> { self.id }
+    }
+
+    pub struct Builder { name: Option<String> }
+    enum Handle<T> { Std(std::thread::JoinHandle<T>), Controlled(usize, Arc<Mutex<Option<Result<T>>>>) }
+    pub struct JoinHandle<T> { handle: Handle<T> }
+
+    impl Builder {
+        pub fn new() -> Builder { Builder { name: None } }
+        pub fn name(self, name: String) -> Builder { Builder { name: Some(name) } }
+
+        pub fn spawn<F, T>(self, f: F) -> io::Result<JoinHandle<T>>
+        where F: FnOnce() -> T + Send + 'static, T: Send + 'static {
+            if let Some(rt) = rt() {
+                let result  = Arc::new(Mutex::new(None));
+                let result2 = Arc::clone(&result);
+                let id      = rt.spawn(self.name, Box::new(move || {
+                    let res = std::panic::catch_unwind(std::panic::AssertUnwindSafe(f));
+                    *result2.lock().unwrap() = Some(res);
+                }));
+
+                Ok(JoinHandle { handle: Handle::Controlled(id, result) })
+            } else {
+                let mut builder = std::thread::Builder::new();
+                if let Some(name) = self.name { builder = builder.name(name); }
+                builder.spawn(f).map(|inner| JoinHandle { handle: Handle::Std(inner) })
+            }
+        }
+    }
+
+    impl<T> JoinHandle<T> {
+        #[track_caller]
+        pub fn join(self) -> Result<T> {
+            match self.handle {
+                Handle::Std(inner)              => inner.join(),
+                Handle::Controlled(id, result)  => {
+                    if let Some(rt) = rt() {
+                        rt.point(Op::Join(id), Location::caller());
+                    } else if let Some(rt) = any_rt() {
+                        while !rt.is_finished(id) { std::thread::yield_now(); }
+                    }
+
+                    let res = result.lock().unwrap().take();
+                    res.expect("controlled thread finished without a result")
+                }
+            }
+        }
+
+        pub fn is_finished(&self) -> bool {
+            match &self.handle {
+                Handle::Std(inner)          => inner.is_finished(),
+                Handle::Controlled(id, _)   => any_rt().map(|rt| rt.is_finished(*id)).unwrap_or(true)
+            }
+        }
+    }
+}
+
+pub mod mpsc {
+    pub use std::sync::mpsc::{RecvError, SendError};
+    use super::{rt, any_rt, next_id, Op};
+    use std::sync::{Arc, Mutex, Condvar};
+    use std::collections::VecDeque;
+    use std::panic::Location;
+
+    struct State<T> { items: VecDeque<T>, senders: usize, receiver: bool }
+    struct Chan<T> { id: usize, state: Mutex<State<T>>, cv: Condvar }
+    pub struct Sender<T> { chan: Arc<Chan<T>> }
+    pub struct Receiver<T> { chan: Arc<Chan<T>> }
+
+    impl<T> Chan<T> {
+        fn changed(&self, state: &State<T>) { if let Some(rt) = any_rt() { rt.chan_changed(self.id, state.items.len(), state.senders); } }
+    }
+
+    pub fn channel<T>() -> (Sender<T>, Receiver<T>) {
+        let chan = Arc::new(Chan { id: next_id(), state: Mutex::new(State { items: VecDeque::new(), senders: 1, receiver: true }), cv: Condvar::new() });
+        { let state = chan.state.lock().unwrap(); chan.changed(&*state); }
+        (Sender { chan: Arc::clone(&chan) }, Receiver { chan })
+    }
+
+    impl<T> Sender<T> {
+        pub fn send(&self, t: T) -> Result<(), SendError<T>> {
+            {
+                let mut state = self.chan.state.lock().unwrap();
+                if !state.receiver { return Err(SendError(t)); }
+                state.items.push_back(t);
+                self.chan.changed(&*state);
+            }
+            self.chan.cv.notify_all();
+            Ok(())
+        }
+    }
+
+    impl<T> Clone for Sender<T> {
+        fn clone(&self) -> Self {
+            { let mut state = self.chan.state.lock().unwrap(); state.senders += 1; self.chan.changed(&*state); }
+            Sender { chan: Arc::clone(&self.chan) }
+        }
+    }
+
+    impl<T> Drop for Sender<T> {
+        fn drop(&mut self) {
+            { let mut state = self.chan.state.lock().unwrap(); state.senders -= 1; self.chan.changed(&*state); }
+            self.chan.cv.notify_all();
+        }
+    }
+
+    impl<T> Drop for Receiver<T> {
+        fn drop(&mut self) {
+            // Items still in the channel are dropped outside of the lock
+            let items = { let mut state = self.chan.state.lock().unwrap(); state.receiver = false; std::mem::take(&mut state.items) };
+            std::mem::drop(items);
+        }
+    }
+
+    impl<T> Receiver<T> {
+        #[track_caller]
+        pub fn recv(&self) -> Result<T, RecvError> {
+            let loc = Location::caller();
+
+            if let Some(rt) = rt() { rt.point(Op::Recv(self.chan.id), loc); }
+
+            let mut state = self.chan.state.lock().unwrap();
+            loop {
+                if let Some(item) = state.items.pop_front() { self.chan.changed(&*state); return Ok(item); }
+                if state.senders == 0 { return Err(RecvError); }
+
+                if let Some(rt) = rt() {
+                    std::mem::drop(state);
+                    rt.point(Op::Recv(self.chan.id), loc);
+                    state = self.chan.state.lock().unwrap();
+                } else {
+                    state = self.chan.cv.wait(state).unwrap();
+                }
+            }
+        }
+    }
+}
